@@ -53,7 +53,7 @@ func ZZ_C06_Step() {
 	used := vx.Int32("used")
 	vx.Assume(requested >= 0)
 	vx.Assume(used >= 0)
-	vx.Assume(int64(used) <= lastGranted) // compliant consumer
+	vx.Assume(int64(used) <= lastGranted)    // compliant consumer
 	vx.Assume(int64(requested)*cost < 1<<32) // (products beyond 32 bits: ZZ_C06_BigProducts)
 	vx.Assume(int64(used)*cost < 1<<32)
 	u := models.ChfConvergedChargingMultipleUnitUsage{RatingGroup: rg, UPFID: "upf", RequestedUnit: &models.RequestedUnit{TotalVolume: requested}}
